@@ -25,7 +25,7 @@ ASSUMPTIONS = ["Document.add_path is given string attribute values (ElementTree 
                "files are written under a fresh temporary directory that the check removes"]
 CONFIGS = ['scipy']
 BUDGET = {'quick': 3000, 'thorough': 40000}
-REQUIRED = ['wsvg', 'history', 'attr:hyphenated', 'svg_attributes', 'nested_directory', 'reader:svg2paths', 'reader:Document', 'reader:SaxDocument',
+REQUIRED = ['attributes_with_stale_d', 'wsvg', 'history', 'attr:hyphenated', 'svg_attributes', 'nested_directory', 'reader:svg2paths', 'reader:Document', 'reader:SaxDocument',
             'history:loaded_document', 'history:add_to_nested_names', 'history:add_to_group_element', 'history:reload']
 CASE_TIMEOUT = 60
 
@@ -73,7 +73,8 @@ def wsvg_case(draw):
                       'preserveAspectRatio': draw(st.sampled_from(['xMidYMid meet', 'none', 'xMinYMax slice'])),
                       'id': 'drawing', 'stroke': 'blue', 'class': 'sheet'}[k]
     sub = draw(st.lists(name_s, min_size=0, max_size=2))
-    return {'kind': 'wsvg', 'paths': paths, 'attrs': attrs, 'svg_attrs': sva, 'subdirs': sub, 'fname': draw(name_s) + '.svg'}
+    return {'kind': 'wsvg', 'paths': paths, 'attrs': attrs, 'svg_attrs': sva, 'subdirs': sub, 'fname': draw(name_s) + '.svg',
+            'stale_d': bool(attrs) and draw(st.integers(0, 4)) == 0}
 
 
 @st.composite
@@ -202,6 +203,12 @@ def check_wsvg(case, ctx, tmp):
     kw = {}
     if attrs is not None:
         kw['attributes'] = [dict(a) for a in attrs]
+        if case.get('stale_d'):
+            # the dictionaries svg2paths hands out carry the d-string of the path as it was read; after the paths were edited they
+            # are passed back with the old 'd' still in them: it is the path that is written (the 'd' entry is not a supplied value)
+            for a in kw['attributes']:
+                a['d'] = 'M 1,2 L 3,4 L -5,6'
+            ctx.count('attributes_with_stale_d')
         if any('-' in k for a in attrs for k in a):
             ctx.count('attr:hyphenated')
     if case['svg_attrs'] is not None:
